@@ -1,1 +1,1 @@
-
+import PyndlProps.C01
